@@ -72,6 +72,19 @@ def make_dir(tree, rng, d):
         else:
             tree.write(p, b"content of " + n.encode("utf-8", "surrogateescape") + b"\n")
         made.append(n)
+    # side files that exist but cannot be read as files: a directory named <file>.abstract, a link <file>.keyboards that
+    # points at itself.  The owning files are listed all the same (without the side information).
+    plain = [n for n in made if n in VISIBLE and n not in ("sub", "sub2") and "\n" not in n]
+    if plain and rng.random() < 0.6:
+        n0 = rng.choice(plain)
+        tree.mkdir(d + "/" + n0 + ".abstract")
+        tree.write(d + "/" + n0 + ".abstract/inside.txt", b"a directory where an abstract is looked for\n")
+        made.append(n0 + ".abstract")
+        n1 = rng.choice(plain)
+        lp = tree.path(d + "/" + n1 + ".keyboards")
+        if not os.path.lexists(lp):
+            os.symlink(os.path.basename(lp), lp)
+            made.append(n1 + ".keyboards")
     return sorted(set(made))
 
 
@@ -151,7 +164,7 @@ def run(ctx):
                 # hidden entries remain retrievable by exact selector
                 for n in names:
                     sel = d + "/" + n
-                    if sel in vis or "\n" in n:
+                    if sel in vis or "\n" in n or not os.path.exists(tr.path(sel)):      # (a link that points at itself is no object)
                         continue
                     rr = pyg.request(reqs.build("gopher", sel), cfg)
                     res.evaluations += 1
